@@ -2,12 +2,14 @@ from check import run_diff_property
 import lib
 
 CFG = dict(
-    streams=[('ja4', 3000, 40000), ('e2e', 150, 2500)],
-    oracle_ops={'ja4spec', 'e2e'},
+    streams=[('ja4', 3000, 40000), ('e2e', 150, 2500), ('rw', 800, 12000)],
+    oracle_ops={'ja4spec', 'e2e', 'rwspec05'},
     twophase_ops={'e2e'},
     project={'e2e': lib.proj_e2e({'ja4', 'st'})},
-    ops_filter={'ser', 'ja4', 'ja4spec', 'e2e'},
-    rule=("structured well-formed ClientHellos (cipher/extension lists 0..130 with GREASE forced first/last/only/all, known "
+    ops_filter={'ser', 'ja4', 'ja4spec', 'e2e', 'rwspec05'},
+    rule=("DELIVERY: the handler in-process with scripted injector sets (default three + custom, shuffled order, value / empty / "
+          "error outcomes): what the backend receives under each injected name against Fp.Spec.Proxy.specValues. "
+          "structured well-formed ClientHellos (cipher/extension lists 0..130 with GREASE forced first/last/only/all, known "
           "extension types with bodies utls accepts, unknown types with random bodies, supported_versions with GREASE / only "
           "GREASE, signature_algorithms with GREASE inserted, ALPN of 1/2/3+ bytes and non-ASCII, padding, no-extension hellos) "
           "through fingerprint.JA4Fingerprint; plus truncations, bit flips, trailing bytes. non-trivial = record longer than 40 bytes"),
